@@ -17,7 +17,16 @@ from tensorly.regression.cp_plsr import CP_PLSR
 
 PID = "C19"
 ENGINE = "E1"
-EXPLANATION = ""
+EXPLANATION = (
+    "CPRegressor/TuckerRegressor: fit() is executed on solver variables (training samples, targets, regularisation strength >= 0; initial weights from the seeded "
+    "RNG stub; every linear solve returns unconstrained fresh values, because the checked identities hold for arbitrary iterates); weight_tensor_ is compared entrywise "
+    "with an index-sum reconstruction of cp_weight_/tucker_weight_, vec_W_ with its row-major vectorisation, and predict() on fresh symbolic samples with the contraction "
+    "of every sample with weight_tensor_ (polynomial identities decided by z3). CP_PLSR: fit/transform/predict run with an SVD model that is arbitrary but functional "
+    "(equal arguments give equal outputs; first entry of each left vector dominant so that svd_flip does not fork) and an exact minimum-norm least-squares model; "
+    "transform(training data) is compared with the fitted scores, unit norm of every loading column is proved structurally (loading = g / sqrt(arg), arg identical to sum g_i^2, "
+    "plus a generic solver lemma), and the invariances are two-run obligations inside one path: the second fit runs on X + C / Y + c / permuted samples; centred entries of both runs are "
+    "proved equal (linear identities) and every compared result is shown to be the same term up to that replacement (congruence), root atoms being shared through the same argument."
+)
 ENCODED = [
     "tensorly.regression.cp_regression.CPRegressor.fit",
     "tensorly.regression.cp_regression.CPRegressor.predict",
@@ -32,11 +41,29 @@ ENCODED = [
     "tensorly.cp_tensor.cp_to_vec",
     "tensorly.tucker_tensor.tucker_to_tensor",
     "tensorly.tucker_tensor.tucker_to_vec",
+    "tensorly.decomposition._cp.initialize_cp",
 ]
-BOUNDS = {"quick": "", "thorough": ""}
-OUTSIDE = []
-TRUSTED = []
-ASSUMPTIONS = []
+BOUNDS = {
+    "quick": "CP/Tucker regressors: 2-3 training samples, sample shapes (2), (2,2), (3,2), targets scalar and (CP) vector-valued of length 2, ranks 1-2 / Tucker ranks up to (2,2), "
+    "1-2 ALS sweeps, symbolic reg_W >= 0, seed fixed (the seeded stream is an uninterpreted function of the seed), 1-2 fresh samples for predict; "
+    "CP_PLSR: 3 samples of shape (2,2) or (2), Y with 2 / 1 columns or a vector, 1 component with 1-2 inner iterations and 2 components with 1 iteration (fit/transform/unit norm), "
+    "invariance runs (constant tensor added to X, constant added to Y, cyclic sample permutation) for 1 component",
+    "thorough": "as quick plus sample shapes (2,2,2), (2,3), targets (2,2)/(3), 3 sweeps (symbolic convergence test forks), all invariance kinds incl. X and Y shifted together for 2 components and 2 inner iterations, "
+    "CP_PLSR sample shapes (2,2,2) and (3,2)",
+}
+OUTSIDE = [
+    "more than 3 samples, mode sizes > 3, sample order > 3, more than 2 components",
+    "numerical quality of the solves / SVD (the identities are independent of it)",
+    "CP_PLSR with an SVD initial guess whose dominant entry is not the first one (symmetric case; fixed to avoid forks in svd_flip)",
+    "IEEE rounding",
+]
+TRUSTED = [
+    "z3",
+    "engine root-atom interning and rational-function identity test (vt.sym / vt.ratnorm)",
+    "lstsq model: minimum-norm least-squares solution = normal-equation solution on the linearly independent non-zero columns",
+    "SVD model: functional (same argument, same outputs)",
+]
+ASSUMPTIONS = ["real arithmetic", "divisions defined (non-zero norms)", "reg_W >= 0", "score columns linearly independent (lstsq model)"]
 
 
 def configs(tier):
@@ -162,9 +189,47 @@ class Congruence:
                 continue
             k = z3.Real(f"cen!{self.n}")
             self.n += 1
-            self.subs.append((tx, k))
-            if not ty.eq(tx):
-                self.subs.append((ty, k))
+            # the raw terms and their z3-simplified forms (the engine stores simplified root arguments)
+            seen = []
+            for t in (tx, ty, z3.simplify(tx), z3.simplify(ty)):
+                if not z3.is_rational_value(t) and not any(t.eq(u) for u in seen):
+                    seen.append(t)
+                    self.subs.append((t, k))
+
+    def canon(self, t):
+        import z3
+
+        return z3.simplify(z3.substitute(t, *self.subs) if self.subs else t, sort_sums=True)
+
+    def install_root_interning(self):
+        """while the second run executes: a root whose argument equals, after the congruence substitution and z3's AC
+        normalisation, the argument of an existing atom of the same degree IS that atom (equal arguments, equal roots).
+        Only an accelerator for the engine's own interning (which tests polynomial identity by full expansion)."""
+        from vt import sym
+
+        c = sym.CTX
+        orig = c.root
+        cache = {}
+        cong = self
+
+        def root(arg, degree=2, nn=False, sos=None):
+            try:
+                key = cong.canon(arg)
+                for at in c.atoms:
+                    v, a, dg = at[0], at[1], at[2]
+                    if dg != degree:
+                        continue
+                    ka = cache.get(v.get_id())
+                    if ka is None:
+                        ka = cache[v.get_id()] = cong.canon(a)
+                    if ka.eq(key):
+                        return sym.SR(v, nn=True, sq=(a, dg))
+            except Exception:
+                pass
+            return orig(arg, degree=degree, nn=nn, sos=sos)
+
+        c.root = root
+        return orig
 
     def same(self, x, y):
         import z3
@@ -178,7 +243,7 @@ class Congruence:
         sx, sy = z3.substitute(tx, *self.subs), z3.substitute(ty, *self.subs)
         if sx.eq(sy):
             return True
-        return z3.simplify(sx).eq(z3.simplify(sy))
+        return z3.simplify(sx, sort_sums=True).eq(z3.simplify(sy, sort_sums=True))
 
 
 def prove_same(E, name, A, B, cong=None):
@@ -201,7 +266,46 @@ def prove_same(E, name, A, B, cong=None):
                 break
             if ok:
                 return E.prove(name, True)
+            if cong is not None:
+                return _undecided_identity(E, name)
     return E.prove_eq(name, A, B)
+
+
+def _undecided_identity(E, name, tries=2):
+    """CP_PLSR terms: the validity query over the full path context does not return within any time limit (z3 ignores
+    its timeout inside preprocessing there, which would also block the driver's alarm), so it is not asked.  An identity
+    that neither the congruence argument nor the normal-form test establishes is probed on random concrete inputs through
+    the ordinary replay mechanism (fresh interpreter, float64, real LAPACK): a reproduced failure is a violation with a
+    concrete witness; otherwise the obligation is reported as inconclusive."""
+    import os
+    import random
+
+    from vt import harness as H, sym
+
+    E.reached.append(name)
+    rec = {"name": name, "path": list(sym.CTX.decisions), "verdict": "inconclusive", "seconds": 0.0, "note": "identity not established syntactically; solver fallback disabled"}
+    if name in E.confirmed:
+        rec.update(verdict="violated", replay=E.confirmed[name], duplicate_of_confirmed=True)
+        E.results.append(rec)
+        return False
+    rnd = random.Random(hash(name) & 0xFFFF)
+    for _ in range(tries):
+        vals = {}
+        for nm, a in E.decl.items():
+            shp = np.shape(a)
+            vals[nm] = (np.array([rnd.randint(-8, 8) / 4 or 0.25 for _ in range(int(np.prod(shp)) if shp else 1)]).reshape(shp)).tolist()
+        path = H.write_replay(E.pid, E.cfg_key, name, vals)
+        ok, out = H.run_replay(E.pid, path)
+        if ok:
+            rec.update(verdict="violated", replay=path, inputs=vals)
+            E.confirmed[name] = path
+            break
+        try:
+            os.remove(path)
+        except OSError:
+            pass
+    E.results.append(rec)
+    return False
 
 
 def prove_unit_norm(E, name, L):
@@ -230,6 +334,8 @@ def prove_unit_norm(E, name, L):
                         return E.prove(name, sym.SB(lemma))
                     finally:
                         E.drop_path = False
+    if E.symbolic:
+        return _undecided_identity(E, name)
     return E.prove(name, E.eq(sum(x * x for x in L), 1))
 
 
@@ -447,12 +553,12 @@ def _h_plsr(E, cfg):
         # lstsq: exact minimum-norm model (see _lstsq_min_norm)
         backend.configure(svd=_svd_dominant_first)
         _eager_atom_lemmas()
+    _vacuity_once(E, cfg)  # before the code runs: the assumptions are the declared input domains only
     try:
         est = _plsr_fit(X, Y, nc, it)
     except Exception as e:
         E.prove("fit/no_exception", False, detail=f"{type(e).__name__}: {e}")
         return
-    _vacuity_once(E, cfg)
     XF = [_arr(E, f) for f in est.X_factors]
     YF = [_arr(E, f) for f in est.Y_factors]
     if inv == "none":
@@ -464,11 +570,11 @@ def _h_plsr(E, cfg):
         try:
             sc = est.transform(X)
             E.prove("transform/shape", tuple(np.shape(sc)) == (ns, nc))
-            prove_same(E, "transform/training_X_gives_fitted_scores", sc, XF[0])
+            prove_same(E, "transform/training_X_gives_fitted_scores", sc, XF[0], Congruence(E))
             sc2, ysc = est.transform(X, Y)
-            prove_same(E, "transform/with_Y/training_X_gives_fitted_scores", sc2, XF[0])
+            prove_same(E, "transform/with_Y/training_X_gives_fitted_scores", sc2, XF[0], Congruence(E))
             E.prove("transform/with_Y/Y_scores_shape", tuple(np.shape(ysc)) == (ns, nc))
-            prove_same(E, "transform/with_Y/training_Y_gives_fitted_Y_scores", ysc, YF[0])
+            prove_same(E, "transform/with_Y/training_Y_gives_fitted_Y_scores", ysc, YF[0], Congruence(E))
         except Exception as e:
             E.prove("transform/no_exception", False, detail=f"{type(e).__name__}: {e}")
         return
@@ -492,13 +598,6 @@ def _h_plsr(E, cfg):
         else:
             Y2[s_] = np.asarray(Y, dtype=dt)[perm[s_]] + np.asarray(cY, dtype=dt)
     Xn2 = np.asarray(Xn, dtype=dt) + np.asarray(C, dtype=dt).reshape((1,) + x)
-    try:
-        est2 = _plsr_fit(tl.tensor(X2), tl.tensor(Y2), nc, it)
-    except Exception as e:
-        E.prove("second_fit/no_exception", False, detail=f"{type(e).__name__}: {e}")
-        return
-    XF2 = [_arr(E, f) for f in est2.X_factors]
-    YF2 = [_arr(E, f) for f in est2.Y_factors]
     cong = Congruence(E)
     if E.symbolic:
         def centred(A, ref):
@@ -513,6 +612,19 @@ def _h_plsr(E, cfg):
         cong.add_pairs(centred(X, X), np.asarray(centred(X2, X2), dtype=object)[inv_perm])
         cong.add_pairs(centred(Y, Y), np.asarray(centred(Y2, Y2), dtype=object)[inv_perm])
         cong.add_pairs(centred(Xn, X), centred(Xn2, X2))
+    saved_root = cong.install_root_interning() if E.symbolic else None
+    try:
+        est2 = _plsr_fit(tl.tensor(X2), tl.tensor(Y2), nc, it)
+    except Exception as e:
+        E.prove("second_fit/no_exception", False, detail=f"{type(e).__name__}: {e}")
+        return
+    finally:
+        if E.symbolic:
+            from vt import sym
+
+            sym.CTX.root = saved_root
+    XF2 = [_arr(E, f) for f in est2.X_factors]
+    YF2 = [_arr(E, f) for f in est2.Y_factors]
     for m in range(1, len(XF)):
         prove_same(E, f"invariance/X_mode{m}_loadings_unchanged", XF2[m], XF[m], cong)
     prove_same(E, "invariance/Y_loadings_unchanged", YF2[1], YF[1], cong)
